@@ -30,6 +30,9 @@ RULE = (
 RULE += (
     ' One family holds container defaults (array of objects, nested dict/list) on the shared tree, with thread values that omit them.'
 )
+RULE += (
+    ' Round 9: family overlap - anyOf alternatives that accept common values but build them differently (1 vs 1.0, model A vs model B), threads validating values that match different branches.'
+)
 ASSUMPTIONS = [
     "interleavings at line granularity of pure-Python statham frames under the GIL; C-level operations are atomic; no claim for free-threaded builds",
     "the free-running stress can only miss violations, never invent them (if the property holds no schedule can produce a mismatch)",
@@ -114,6 +117,12 @@ def cases(draw):
             {"id": 9500, "kind": "Array", "kw": {}, "sub": {"items": num}},
             {"id": 9500, "kind": "Element", "kw": {}, "props": [
                 {"name": "v", "source": None, "required": False, "element": num}]}]))
+    elif draw(st.integers(0, 5)) == 0:
+        # alternatives that accept common values but BUILD them differently (1 vs 1.0, model A vs model B): which one
+        # built a thread's value must not depend on what another thread validated a moment ago
+        from props.c08_purity import overlapping_anyof
+        recipe = draw(overlapping_anyof())
+        recipe["_family"] = "overlap"
     schema = R.to_schema(recipe)
     n = draw(st.integers(2, 4))
     # threads draw (with repetition) from one small pool, so that the same value is validated by
@@ -122,6 +131,9 @@ def cases(draw):
     if "dependencies" in canon(schema) and recipe.get("id") == 9100:
         pool += [{"a": 1}, {"b": 1}, {"c": 1, "d": 2}, {"a": 1, "b": 2, "c": 3, "d": 4, "e": 5}, {"a": 1, "e": 1},
                  {"d": 1}, {"b": 1, "a": 2}]
+    if recipe.pop("_family", None) == "overlap":
+        from props.c08_purity import OVERLAP_VALUES
+        pool = list(OVERLAP_VALUES)
     if recipe.get("id") in (9500, 9501):
         nums = [1e30, 10 ** 40, 3.0, 1e-30, 2 ** 70 + 1, 7.5e28, -1e35, 1.5, 6, 10 ** 29]
         pool = list(nums) + [[x] for x in nums[:4]] + [{"v": x} for x in nums[:5]]
